@@ -916,6 +916,10 @@ impl Property for C14 {
     fn from_fuzz_bytes(d: &[u8]) -> Option<FailCase> {
         Some(crate::fuzzdec::decode_fail_case(d))
     }
+    fn crash_is_violation() -> bool {
+        // 'it never panics, aborts or overflows'
+        true
+    }
     fn use_checked_build() -> bool {
         true
     }
